@@ -57,7 +57,13 @@ func FieldwiseManifest(idx int) (Manifest, string) {
 	name := LocalDirAlphabet[idx%len(LocalDirAlphabet)]
 	shape := idx / len(LocalDirAlphabet)
 	m := Manifest{Format: 1}
-	switch shape % 3 {
+	switch shape % 4 {
+	case 3: // two packages (the second with the longer address) whose directories differ only in the case of their letters
+		other := strings.ToUpper(name)
+		if other == name {
+			other = strings.ToLower(name)
+		}
+		m.Packages = []MPackage{{Source: manifestSources[0], Local: name}, {Source: manifestSources[0] + "-longer-address", Local: other}}
 	case 0:
 		m.Packages = []MPackage{{Source: manifestSources[0], Local: name}}
 	case 1: // two sources, one directory (aliases of equal length)
@@ -66,7 +72,7 @@ func FieldwiseManifest(idx int) (Manifest, string) {
 		m.Packages = []MPackage{{Source: manifestSources[0], Local: "first"}, {Source: manifestSources[0], Local: name}}
 	}
 	m.Registry = []MRegistry{{Source: "example.com/ns/m/sys", Versions: map[string]MVersion{"1.0.0": {Source: manifestSources[0] + "//mod"}}}}
-	return m, fmt.Sprintf("fieldwise name=%q shape=%d", name, shape%3)
+	return m, fmt.Sprintf("fieldwise name=%q shape=%d", name, shape%4)
 }
 
 // RandomManifest generates a PRNG manifest.
